@@ -342,9 +342,7 @@ def bounded_exploration(prop, repo, outdir, seeds):
     """Thorough tier: every native harness registered for the property is run on the tree under several driver seeds.
     These are BOUNDED checks (never counted as proved); a concrete failing input found on the real crate is reported."""
     out, found = [], None
-    bins = REPLAY_BINS.get(prop, [])
-    if not bins:
-        return out, None
+    bins = list(REPLAY_BINS.get(prop, []))
     crate = _crate_for(repo, "replay", outdir)
     tdir = os.path.join(VERIF, "replay", "target") if repo == "/repo" else os.path.join(outdir, "replay_target")
     for b in bins:
@@ -367,6 +365,19 @@ def bounded_exploration(prop, repo, outdir, seeds):
                 out.append({"what": f"native search {name} {' '.join(pargs)} (driver seed {sd})", "bound": "see the harness header", "result": "COUNTEREXAMPLE: " + found["output"][:300], "backend": "native"})
                 return out, found
             out.append({"what": f"native search {name} {' '.join(pargs)} (driver seed {sd})", "bound": (ok[-1][:200] if ok else "ran"), "result": "no counterexample" if r.returncode == 0 else f"exit {r.returncode}", "backend": "native", "wall_s": round(time.time() - t0, 1)})
+    # audit of the assumed dependency contracts (prelude stubs of daggy / petgraph / tokio mpsc / futures) against the real
+    # crates: a disagreement invalidates the trusted base, it is not a property violation
+    cmd = ["cargo", "run", "--offline", "--quiet", "--target-dir", tdir, "--bin", "audit_deps"]
+    for sd in seeds[:2]:
+        try:
+            r = subprocess.run(cmd, cwd=crate, env=dict(ENV, VERIF_SEED=str(sd)), capture_output=True, text=True, timeout=600)
+            txt = r.stdout + r.stderr
+            bad = [l for l in txt.splitlines() if l.startswith("AUDIT-FAIL")]
+            oks = [l for l in txt.splitlines() if l.startswith("OK audit")]
+            out.append({"what": f"audit of assumed dependency contracts (audit_deps, seed {sd})", "bound": " | ".join(o[:160] for o in oks)[:900] or "ran",
+                        "result": ("DISAGREEMENT: " + bad[0][:300]) if bad else ("agrees" if r.returncode == 0 else f"exit {r.returncode}"), "backend": "native", "audit_failed": bool(bad)})
+        except subprocess.TimeoutExpired:
+            out.append({"what": f"audit of assumed dependency contracts (audit_deps, seed {sd})", "result": "timed out", "backend": "native"})
     return out, None
 
 
